@@ -34,13 +34,14 @@ def run(chk):
         "substituted values are capture-free (mention no bound index) — outside it the model still mirrors the code "
         "(checked by the correspondence run) but the sum reading fails (Example evaluate_duplicate_index_outside_hypothesis)",
         "substitution targets are Symbols (xreplace also: whole PoolSum nodes); simultaneous subs with dict argument is not modelled",
-        "HelicityModel.expression: value preservation proved for all wf intensities; completeness (no PoolSum left) only "
-        "exercised (builder shape, nesting depth <= 2) and refuted from depth 3 on (Example expression_unfolding_depth3_incomplete)",
+        "HelicityModel.expression: value preservation proved for all wf intensities; completeness (no PoolSum left) proved "
+        "for PoolSum nesting depth <= 2 (the builder shape) and refuted from depth 3 on (Example "
+        "expression_unfolding_depth3_incomplete; not reachable from the builders); the final xreplace(amplitudes) is not modelled",
     ]
     proofs_ok = chk.compile_chain([], ["C18_lemmas.v"], "C18.v", timeout=900)
 
     thorough = chk.tier == "thorough"
-    n_expr = 1500 if thorough else 130
+    n_expr = 3000 if thorough else 300
     failures = []
 
     # ---- correspondence run
@@ -80,7 +81,7 @@ def run(chk):
                                  "(not a violation): " + " || ".join(ddoc["drift"]))
 
     # ---- independent oracle / failing-input search
-    n = 4000 if thorough else 260
+    n = 10000 if thorough else 600
     if not (proofs_ok and corr_ok):
         n = max(n, 2500)
     rc, sdoc, out = chk.bridge_json("search_C18.py", [str(chk.seed), str(n)], timeout=2400)
